@@ -898,3 +898,45 @@ Proof.
     + right. exists pre, w1, f1, r1. split; auto.
   - intros H. inversion H.
 Qed.
+
+(* ------------------------------------------------------------------ *)
+(* an answer is never handed out after the deadline                      *)
+
+Lemma receive_udp_deadline (parse : list Z -> pabs) af dest e o query :
+  forall evs now i j m wire t from rest,
+  receive_udp parse af dest (Some e) o query evs now i = (j, Ok (m, wire, t, from, rest)) ->
+  t = now \/ t < e.
+Proof.
+  induction evs as [|ev evs IH]; intros now i j m wire t from rest H.
+  - cbn [receive_udp] in H. destruct (wait_for now (Some e) None); inversion H.
+  - destruct ev as [w f|dt]; cbn [receive_udp] in H.
+    + destruct (matches_destination af f dest (o_ignore_unexpected o)) as [[|]| |]; try (inversion H; fail).
+      * destruct (from_wire_out (parse w) (o_ignore_trailing o) (o_raise_on_truncation o)) as [m'|m'|e'].
+        -- destruct (o_ignore_errors o && match query with Some q => negb (is_response q m') | None => false end).
+           ++ eapply IH; eauto.
+           ++ inversion H; subst. auto.
+        -- destruct (o_ignore_errors o && match query with Some q => negb (is_response q m') | None => false end).
+           ++ eapply IH; eauto.
+           ++ inversion H.
+        -- destruct (o_ignore_errors o).
+           ++ eapply IH; eauto.
+           ++ unfold err_res in H. destruct (e' <? 20); inversion H.
+      * eapply IH; eauto.
+    + destruct (wait_for now (Some e) dt) as [now'| |] eqn:W; try (inversion H; fail).
+      apply wait_for_ok_lt in W. apply IH in H. lia.
+Qed.
+
+(* udp(q, timeout=T): the elapsed time reported with an answer is 0 (nothing was waited for) or
+   strictly less than T *)
+Theorem udp_answer_within_timeout (parse : list Z -> pabs) q qwire where_ T af o evs now i r wire t from rest :
+  udp parse q qwire where_ (Some T) af o [] evs now = (i, Ok (r, wire, t, from, rest)) ->
+  t = 0 \/ t < T.
+Proof.
+  unfold udp. destruct (negb (where_valid where_)); [intros H; inversion H|].
+  cbn [compute_times udp_send].
+  destruct (receive_udp parse af (Some where_) (Some (now + T)) o (Some q) evs now 0) as [j [x| |]] eqn:E;
+    try (intros H; inversion H; fail).
+  destruct x as [[[[r0 w0] t0] f0] rest0].
+  destruct (negb (o_ignore_errors o || is_response q r0)); [intros H; inversion H|].
+  intros H. inversion H; subst. apply receive_udp_deadline in E. lia.
+Qed.
